@@ -462,18 +462,81 @@ def o_dump_subset_load(ctx, repo):
 
 
 def r_resolve_index(ctx, repo):
+    """structural facts about BaseResolver.resolve and its two callers (matched on the AST with metavariables, so local
+    names, helper extraction and branch spelling do not matter)."""
+    from . import match as M
     rule = ctx.rule('R-RESOLVE-INDEX', 'BaseResolver.resolve consults the first-character list (\'\' for the empty string) and the wildcard '
                                        'list only under implicit[0], returns the first match; composers resolve only non-specific tags')
     f = repo.func('resolver.BaseResolver.resolve')
-    t = norm(f.node)
+    if len(f.params) < 4:
+        raise AnalysisError('BaseResolver.resolve: expected (self, kind, value, implicit)')
+    kind, value, implicit = f.params[1:4]
+    env = {'_N_k': ast.Name(id=kind, ctx=ast.Load()), '_N_v': ast.Name(id=value, ctx=ast.Load()),
+           '_N_i': ast.Name(id=implicit, ctx=ast.Load())}
+    reads = [n for n in walk_function(f.node) if isinstance(n, ast.Attribute) and n.attr == 'yaml_implicit_resolvers']
+    if not reads:
+        raise AnalysisError('BaseResolver.resolve no longer reads yaml_implicit_resolvers')
+
+    def under_plain_guard(n):
+        for iff, branch in A.guarding_ifs(n, f.node):
+            if branch != 'body':
+                continue
+            cj = A.conjuncts(iff.test)
+            if any(M.match(M.compile_pattern('_N_k is ScalarNode')[1], c, dict(env)) for c in cj) and \
+                    any(M.match(M.compile_pattern('_N_i[0]')[1], c, dict(env)) for c in cj):
+                return True
+        return False
+    keys = set()
+    for c, e in M.find(f.node, 'self.yaml_implicit_resolvers.get(__key, ...)', env):
+        k = e['__key']
+        if isinstance(k, ast.Constant):
+            keys.add(repr(k.value))
+        elif M.match(M.compile_pattern('_N_v[0]')[1], k, dict(env)):
+            keys.add('value[0]')
+        else:
+            keys.add(norm(k))
+    empty_guard = False
+    for c, e in M.find(f.node, "self.yaml_implicit_resolvers.get('', ...)", env):
+        for iff, branch in A.guarding_ifs(c, f.node):
+            t = iff.test
+            if (branch == 'body' and (M.match(M.compile_pattern("_N_v == ''")[1], t, dict(env))
+                                      or M.match(M.compile_pattern('not _N_v')[1], t, dict(env)))) or \
+               (branch == 'orelse' and (M.match(M.compile_pattern("_N_v != ''")[1], t, dict(env))
+                                        or M.match(M.compile_pattern('_N_v')[1], t, dict(env)))):
+                empty_guard = True
+    first_guard = False
+    for c, e in M.find(f.node, 'self.yaml_implicit_resolvers.get(_N_v[0], ...)', env):
+        for iff, branch in A.guarding_ifs(c, f.node):
+            t = iff.test
+            if (branch == 'orelse' and (M.match(M.compile_pattern("_N_v == ''")[1], t, dict(env))
+                                        or M.match(M.compile_pattern('not _N_v')[1], t, dict(env)))) or \
+               (branch == 'body' and (M.match(M.compile_pattern("_N_v != ''")[1], t, dict(env))
+                                      or M.match(M.compile_pattern('_N_v')[1], t, dict(env)))):
+                first_guard = True
+    loop = M.find(f.node, 'for (__t, __r) in __lists:\n    if __r.match(_N_v):\n        return __t', env)
+    order_ok = False
+    for n, e in loop:
+        lists = e['__lists']
+        # first-character list before the wildcard list
+        names = [x.id for x in ast.walk(lists) if isinstance(x, ast.Name)]
+        defs = {}
+        for a in walk_function(f.node):
+            if isinstance(a, ast.Assign) and len(a.targets) == 1 and isinstance(a.targets[0], ast.Name):
+                defs.setdefault(a.targets[0].id, []).append(a.value)
+        seq = []
+        for nm in names:
+            txt = ' '.join(norm(v) for v in defs.get(nm, []))
+            seq.append('wild' if '.get(None' in txt else 'first' if 'yaml_implicit_resolvers' in txt else '?')
+        if isinstance(lists, ast.BinOp) and seq[:2] == ['first', 'wild']:
+            order_ok = True
+    default = [n for n, e in M.find(f.node, "if _N_k is ScalarNode:\n    return 'tag:yaml.org,2002:str'", env)]
     facts = [
-        ('if kind is ScalarNode and implicit[0]' in t, 'implicit resolution only for plain scalars (implicit[0])'),
-        ("if value == '':" in t and "self.yaml_implicit_resolvers.get('', [])" in t, 'the empty string uses the \'\' list'),
-        ('self.yaml_implicit_resolvers.get(value[0], [])' in t, 'non-empty strings use the list of their first character'),
-        ('self.yaml_implicit_resolvers.get(None, [])' in t, 'wildcard list consulted'),
-        ('for (tag, regexp) in resolvers + wildcard_resolvers' in t and 'if regexp.match(value):\n                    return tag' in t.replace('\t', '    ')
-         or ('if regexp.match(value)' in t and 'return tag' in t), 'first matching regex decides'),
-        ('return self.DEFAULT_SCALAR_TAG' in t, 'default tag for unmatched scalars'),
+        (all(under_plain_guard(n) for n in reads), 'implicit resolution only for plain scalars (implicit[0])'),
+        ("''" in keys and empty_guard, "the empty string uses the '' list"),
+        ('value[0]' in keys and first_guard, 'non-empty strings use the list of their first character'),
+        ('None' in keys, 'wildcard list consulted'),
+        (bool(loop) and order_ok, 'first matching regex decides (first-character list before the wildcard list)'),
+        (bool(default), 'default tag for unmatched scalars'),
     ]
     for ok, what in facts:
         if ok:
@@ -483,17 +546,31 @@ def r_resolve_index(ctx, repo):
                       'BaseResolver.resolve: %s - no longer the case' % what)
     for q in ('composer.Composer.compose_scalar_node',):
         g = repo.func(q)
-        tt = norm(g.node)
-        if "if tag is None or tag == '!':" in tt and 'self.resolve(ScalarNode, event.value, event.implicit)' in tt:
+        calls = M.find(g.node, 'self.resolve(ScalarNode, __e.value, __e.implicit)')
+        good = False
+        for c, e in calls:
+            for iff, branch in A.guarding_ifs(c, g.node):
+                if branch == 'body' and (M.match(M.compile_pattern("__t is None or __t == '!'")[1], iff.test, {})
+                                         or M.match(M.compile_pattern("__t == '!' or __t is None")[1], iff.test, {})
+                                         or M.match(M.compile_pattern("__t in (None, '!')")[1], iff.test, {})):
+                    good = True
+        if good:
             rule.ok(g.loc(), 'composer resolves only non-specific tags, with the event\'s implicit flags')
         else:
             rule.fail('%s|resolve' % g.qualname, g.module.rel, g.node.lineno, g.qualname, 'self.resolve(...)',
                       'compose_scalar_node no longer resolves exactly the untagged / "!" scalars with the event\'s implicit flags')
     # the parser marks quoted / block scalars as (False, True)
     p = repo.func('parser.Parser.parse_node')
-    tt = norm(p.node)
-    if "if token.plain and tag is None or tag == '!':\n" in tt or ('token.plain and tag is None' in tt and 'implicit = (True, False)' in tt
-                                                                   and 'implicit = (False, True)' in tt):
+    plain = M.find(p.node, "if __tok.plain and __tag is None or __tag == '!':\n    __imp = (True, False)")
+    good = False
+    for n, e in plain:
+        rest = n.orelse
+        # the remaining cases: untagged non-plain -> (False, True); tagged -> (False, False)
+        e2 = {k: v for k, v in e.items() if k in ('__tag', '__imp')}
+        if M.has(p.node, 'if __tag is None:\n    __imp = (False, True)', dict(e2)) and \
+                M.has(p.node, '__imp = (False, False)', dict(e2)):
+            good = True
+    if good:
         rule.ok(p.loc(), 'plain scalars get (True, False), other untagged scalars (False, True)')
     else:
         rule.fail('%s|implicit' % p.qualname, p.module.rel, p.node.lineno, p.qualname, 'implicit = ...',
